@@ -263,6 +263,48 @@ func (v *Verifier) PackageObligations() []*PkgObligation {
 	}
 	out = append(out, &PkgObligation{Name: "pkg#register-callers", Props: []string{"C04", "C08"}, Holds: okC,
 		Detail: strings.Join(callers, ", "), Desc: "register is called only while rendering a package token (token.render, Group.renderItems); found: " + strings.Join(callers, ", ")})
+	// C14: every construct exists as function, *Statement method and *Group method with the same parameters
+	{
+		var bad []string
+		n := 0
+		stT := v.enc.tpkg.Scope().Lookup("Statement")
+		grT := v.enc.tpkg.Scope().Lookup("Group")
+		if stT != nil && grT != nil {
+			ms := types.NewMethodSet(types.NewPointer(stT.Type()))
+			sigOf := func(sig *types.Signature) string {
+				var ps []string
+				for i := 0; i < sig.Params().Len(); i++ {
+					ps = append(ps, sig.Params().At(i).Type().String())
+				}
+				return strings.Join(ps, ",") + fmt.Sprint(sig.Variadic())
+			}
+			notConstructs := map[string]bool{"Clone": true, "GoString": true, "Render": true, "RenderWithFile": true}
+			for i := 0; i < ms.Len(); i++ {
+				m := ms.At(i).Obj().(*types.Func)
+				if !m.Exported() || notConstructs[m.Name()] {
+					continue
+				}
+				sig := m.Type().(*types.Signature)
+				if sig.Results().Len() != 1 || sig.Results().At(0).Type().String() != "*github.com/dave/jennifer/jen.Statement" {
+					continue
+				}
+				n++
+				fobj, _ := v.enc.tpkg.Scope().Lookup(m.Name()).(*types.Func)
+				gobj, _, _ := types.LookupFieldOrMethod(types.NewPointer(grT.Type()), true, v.enc.tpkg, m.Name())
+				gf, _ := gobj.(*types.Func)
+				switch {
+				case fobj == nil:
+					bad = append(bad, m.Name()+": no package-level function")
+				case gf == nil:
+					bad = append(bad, m.Name()+": no *Group method")
+				case sigOf(fobj.Type().(*types.Signature)) != sigOf(sig) || sigOf(gf.Type().(*types.Signature)) != sigOf(sig):
+					bad = append(bad, m.Name()+": the three forms take different parameters")
+				}
+			}
+		}
+		out = append(out, &PkgObligation{Name: "pkg#api-forms", Props: []string{"C14"}, Holds: len(bad) == 0 && n > 0,
+			Detail: strings.Join(bad, "; "), Desc: fmt.Sprintf("each of the %d exported constructs (enumerated from the method set of *Statement) also exists as a package function and as a *Group method with identical parameters", n)})
+	}
 	// C07/C03: the result of register is a function of what it reads (justifies regName/regImp)
 	if reg := v.fnByKey["(*File).register"]; reg != nil {
 		why := v.functionalWhyNot(reg, map[*ssa.Function]bool{})
